@@ -66,6 +66,21 @@ pub trait Scene {
     }
 }
 
+thread_local! {
+    static OBLIGATIONS: std::cell::RefCell<BTreeMap<&'static str, u64>> = const { std::cell::RefCell::new(BTreeMap::new()) };
+}
+
+/// Records that a clause was *under obligation* in the execution being checked (its antecedent
+/// held, so the clause really said something). Summed per property in the evidence; a clause
+/// that is never under obligation in a whole run is reported as vacuous.
+pub fn oblige(clause: &'static str) {
+    OBLIGATIONS.with(|o| *o.borrow_mut().entry(clause).or_insert(0) += 1);
+}
+
+fn take_obligations() -> BTreeMap<&'static str, u64> {
+    OBLIGATIONS.with(|o| std::mem::take(&mut *o.borrow_mut()))
+}
+
 pub struct Case {
     pub desc: String,
     pub exec: ExecCfg,
@@ -78,6 +93,8 @@ pub struct Property {
     pub id: &'static str,
     pub cases: fn(Tier) -> Vec<Case>,
     pub assumptions: &'static [&'static str],
+    /// clauses whose antecedent must hold somewhere in every run (vacuity guard)
+    pub clauses: &'static [&'static str],
 }
 
 // ---------------------------------------------------------------- running one execution
@@ -169,6 +186,7 @@ const MAX_OUTCOMES: usize = 2_000_000;
 
 fn explore_case(idx: usize, case: &Case, deadline: Option<Instant>, want_sample: bool, split: Option<vexec::Split>, abort_after: Option<u64>) -> Value {
     let t0 = Instant::now();
+    let _ = take_obligations();
     let mut outcomes: HashSet<u64> = HashSet::new();
     let mut found: BTreeMap<String, (u64, FoundViolation)> = BTreeMap::new();
     let mut sample: Option<Value> = None;
@@ -298,6 +316,7 @@ fn explore_case(idx: usize, case: &Case, deadline: Option<Instant>, want_sample:
     if let Some(x) = case.scene.export() {
         out["export"] = x;
     }
+    out["obligations"] = json!(take_obligations());
     out
 }
 
@@ -523,6 +542,12 @@ pub fn check_main(prop: &Property, tier: Tier) -> i32 {
                 if let Some(e) = r.get("error") {
                     acc["error"] = e.clone();
                 }
+                if let Some(ob) = r.get("obligations").and_then(Value::as_object) {
+                    for (k, n) in ob {
+                        let cur = acc["obligations"][k].as_u64().unwrap_or(0);
+                        acc["obligations"][k] = json!(cur + n.as_u64().unwrap_or(0));
+                    }
+                }
                 if acc.get("sample").is_none() {
                     if let Some(smp) = r.get("sample") {
                         acc["sample"] = smp.clone();
@@ -567,6 +592,7 @@ pub fn check_main(prop: &Property, tier: Tier) -> i32 {
     let mut single_outcome_multi_schedule = 0u64;
     let mut samples: Vec<Value> = vec![];
     let mut viols: BTreeMap<String, (u64, Value)> = BTreeMap::new();
+    let mut obligations: BTreeMap<String, u64> = BTreeMap::new();
     for r in &results {
         if let Some(e) = r.get("error").and_then(Value::as_str) {
             machinery.push(format!("case {} ({}): {e}", g(r, "idx"), r["desc"].as_str().unwrap_or("")));
@@ -605,6 +631,11 @@ pub fn check_main(prop: &Property, tier: Tier) -> i32 {
         }
         if g(r, "schedules") > 50 && g(r, "outcomes") == 1 {
             single_outcome_multi_schedule += 1;
+        }
+        if let Some(ob) = r.get("obligations").and_then(Value::as_object) {
+            for (k, n) in ob {
+                *obligations.entry(k.clone()).or_insert(0) += n.as_u64().unwrap_or(0);
+            }
         }
         if let Some(s) = r.get("sample") {
             if samples.len() < 3 {
@@ -666,6 +697,7 @@ pub fn check_main(prop: &Property, tier: Tier) -> i32 {
         println!("  clause={} key={} case={} :: {}", v["clause"].as_str().unwrap_or(""), key, v["case_desc"].as_str().unwrap_or(""), v["detail"].as_str().unwrap_or(""));
     }
 
+    let vacuous: Vec<&str> = prop.clauses.iter().copied().filter(|c| obligations.get(*c).copied().unwrap_or(0) == 0).collect();
     let exhaustive = machinery.is_empty() && skipped == 0 && wall_hit_cases == 0 && pruned_cases == 0 && results.len() == ncases;
     let mut caps: Vec<&str> = vec![];
     if skipped > 0 || wall_hit_cases > 0 {
@@ -715,6 +747,8 @@ pub fn check_main(prop: &Property, tier: Tier) -> i32 {
             "largest_cases": largest_cases,
             "vacuity_warning_cases_single_outcome": single_outcome_multi_schedule,
             "cases_split_across_workers": split_cases,
+            "clause_obligations": obligations,
+            "clauses_never_under_obligation": vacuous,
             "caps_hit": caps,
             "known_findings_reproduced": known_hits,
             "workers": nworkers,
@@ -750,6 +784,9 @@ pub fn check_main(prop: &Property, tier: Tier) -> i32 {
         caps,
         t0.elapsed().as_secs_f64()
     );
+    if !vacuous.is_empty() {
+        println!("WARNING: clauses never under obligation in this run (vacuous): {vacuous:?}");
+    }
     if real_checked > real_ok {
         println!("WARNING: {} of {} real-tokio runs produced an outcome that is not among the explored ones (see evidence: real_runtime_mismatch_samples)", real_checked - real_ok, real_checked);
     }
